@@ -304,6 +304,9 @@ StressOK(ev) == ev.pool <= ev.max
 \* at every lock) and completion of every call, the stream counters are back to zero and the evaluator counters match the recorded states
 StressLeakOK(ev) == ev.leak = 0
 StressCntOK(ev) == ev.cntok
+\* C09_s (kind "rr": 12 goroutines issue BIND calls over n READY channels, n | total; kind "rrwrap": the cursor starts just below
+\* 2^31 and 4n sequential BIND calls follow): every channel got the same number of calls and no call failed or panicked
+StressRROK(ev) == ev.rrmin = ev.rrmax /\ ev.res = "OK"
 
 Saturated(g, S) == \A x \in S : Streams(g, x) >= g.cfg.wm
 NoIdleConnecting(g) == \A x \in PoolOf(g) : CurSt(g, x) \notin {"IDLE", "CONNECTING"}
@@ -466,7 +469,7 @@ Clauses(g, ev, g2) ==
   C01(g, ev, g2) \cup C02(g, ev, g2) \cup C03(g, ev, g2) \cup C04(g, ev, g2) \cup C05(g, ev, g2) \cup C06(g, ev, g2)
   \cup C07(g, ev, g2) \cup C08(g, ev, g2) \cup C09(g, ev, g2) \cup C17(g, ev, g2) \cup C20(g, ev, g2)
 
-ClauseIds == {"C01_a", "C01_b", "C01_d", "C02_a", "C02_b", "C02_d", "C03_a", "C03_b", "C03_c", "C03_d", "C03_e", "C03_s", "C02_s", "C04_s",
+ClauseIds == {"C01_a", "C01_b", "C01_d", "C02_a", "C02_b", "C02_d", "C03_a", "C03_b", "C03_c", "C03_d", "C03_e", "C03_s", "C02_s", "C04_s", "C09_s",
               "C04_a", "C04_b", "C04_c", "C04_e", "C04_f", "C05_a", "C05_b", "C06_a", "C06_b", "C06_d",
               "C07_a", "C07_b", "C07_c", "C07_e", "C08_a", "C08_b", "C08_e", "C08_h", "C08_h2",
               "C09_a", "C09_a2", "C09_b", "C09_c", "C09_e", "C17_e", "C17_b", "C17_c", "C17_m", "C20_a", "C20_a2", "C20_b", "C20_c", "C20_d"}
